@@ -3,6 +3,7 @@ package gosym
 // Path state, decisions, exploration driver.
 
 import (
+	"sync/atomic"
 	"fmt"
 	"go/types"
 	"sort"
@@ -351,21 +352,30 @@ func (ex *exec) check(extra *Term, wantModel bool) (Result, map[string]interface
 		}
 		return ex.fp.Check(asserts, ex.modelTerms(wantModel), wantModel)
 	}
+	if hopelessPaths.Load() > 8 {
+		// many paths of this run were already given up on solver time-outs: stop paying 10 s per hopeless query
+		ex.solver.SetTimeout(1000)
+	}
 	r, m := ex.solver.Check(asserts, ex.modelTerms(wantModel), wantModel)
 	if r == Unknown {
 		ex.unknowns++
 		if ex.unknowns > 3 {
+			hopelessPaths.Add(1)
 			// every further query on this path is likely to time out as well (typically: byte-level reasoning
 			// about symbolic strings); give the path up rather than spend the budget on it
 			panic(engineAbort{"incomplete", "solver answered unknown more than 3 times on one path"})
 		}
 	}
 	if ex.solver.LastKilled {
+		hopelessPaths.Add(1)
 		// the solver ignored its own time limit and was killed: queries on this path are hopeless, give the path up
 		panic(engineAbort{"incomplete", "solver did not answer within the time limit (killed)"})
 	}
 	return r, m
 }
+
+// hopelessPaths counts, per exploration, the paths given up because the solver kept timing out.
+var hopelessPaths atomic.Int64
 
 // decide makes an n-way decision; opts[i] is the condition under which option i applies (exhaustive).
 func (ex *exec) decide(kind string, opts []*Term) int {
@@ -407,6 +417,11 @@ func (ex *exec) decide(kind string, opts []*Term) int {
 		case Unknown:
 			ex.sawUnknown = true
 			feasible = append(feasible, i)
+		}
+		if kind == "concint" && len(feasible) > 24 {
+			// a symbolic size or index with dozens of possible values (typically the length of a symbolic
+			// string being copied byte by byte): enumerating them is not a bound anyone stated
+			panic(engineAbort{"incomplete", "a symbolic size/index has more than 24 feasible values (byte-level use of symbolic data)"})
 		}
 	}
 	if len(feasible) == 0 {
@@ -825,6 +840,7 @@ func (q *workQueue) stop() {
 
 // Explore runs the harness over all paths within the configured bounds.
 func (p *Program) Explore(entry *ssa.Function, cfg *Config) *Report {
+	hopelessPaths.Store(0)
 	start := time.Now()
 	rep := &Report{Harness: entry.String(), Unsupported: map[string]int{}, IncompleteBy: map[string]int{},
 		Reach: map[string]int{}, Failures: map[string]*Failure{}, FailCount: map[string]int{}, Cover: map[string]int{}}
